@@ -18,6 +18,7 @@ Record obs := {
   ob_listed : bool;     (* ListJobs contained the name after sc_end *)
   ob_hung : bool;       (* the run never came to rest (real-time watchdog): only the calls, the starts,
                            JobExists and ListJobs were observed, the reuse of the name was not tried *)
+  ob_running : N;       (* executions of jobFunc in progress at sc_end *)
   ob_count : N          (* repetitions that showed this outcome *)
 }.
 
@@ -41,8 +42,10 @@ Definition hung_match (o m : outcome) : bool :=
   && Bool.eqb (o_panic o) (o_panic m)
   && existsb is_hung (o_calls m).
 
-Definition obs_match (ms : list outcome) (ob : obs) : bool :=
-  existsb (fun m => if ob_hung ob then hung_match (ob_out ob) m else outcome_match (ob_out ob) m) ms.
+(* the observation is that of one of the states in which the model's script can end *)
+Definition obs_match (ts : list tstate) (ob : obs) : bool :=
+  existsb (fun t => (if ob_hung ob then hung_match (ob_out ob) (outcome_of t) else outcome_match (ob_out ob) (outcome_of t))
+                    && (running (t_core t) =? ob_running ob)) ts.
 
 Definition tout_eqb (a b : tout) : bool :=
   match a, b with
@@ -55,8 +58,8 @@ Definition tout_eqb (a b : tout) : bool :=
 Definition agree (c : case) : bool :=
   match c_body c with
   | Timed sc os =>
-      let ms := outcomes sc in
-      match os with [] => false | _ => forallb (obs_match ms) os end
+      let ts := finals sc in
+      match os with [] => false | _ => forallb (obs_match ts) os end
   | Tabled ops outs runs =>
       let '(s, outs') := tb_run tb_init ops in
       list_eqb tout_eqb outs outs' && list_eqb (prod_eqb N.eqb N.eqb) runs (tb_final_runs s)
